@@ -57,7 +57,7 @@ fn main() {
     } else if let Some(idx) = args.get(2).and_then(|a| a.strip_prefix("race:")).and_then(|n| n.parse::<usize>().ok()) {
         // a first-use race on one setting (the settings are taken in turn)
         let mut rng = rng::Rng::for_run(seed, "C19-miri-race", 0);
-        gen_race_case(&mut rng, Setting::ALL[idx % Setting::ALL.len()], &GenCfg { max_data: 48, max_declared: 4096, c_codecs: false, alloc_values: &ALLOC_VALUES_SMALL, validators: true })
+        gen_race_case(&mut rng, Setting::ALL[idx % Setting::ALL.len()], (idx / Setting::ALL.len()) % 2 == 1, &GenCfg { max_data: 48, max_declared: 4096, c_codecs: false, alloc_values: &ALLOC_VALUES_SMALL, validators: true })
     } else {
         let mut rng = rng::Rng::for_run(seed, "C19-miri", 0);
         gen_case(&mut rng, &GenCfg { max_data: 48, max_declared: 4096, c_codecs: false, alloc_values: &ALLOC_VALUES_SMALL, validators: args.get(2).map(|a| a == "validators").unwrap_or(false) })
